@@ -67,4 +67,10 @@ CLAIMED["C09"] = (
     "APIs must return identical GraphState pytrees, params/eps/step given to init() must be what the steps see, out-of-range indices must clip.",
     "compiled runtime inside the documented horizon; integer-arithmetic probe nodes make bitwise comparison meaningful", "DESIGN.md §4 C09",
 )
+CLAIMED["C12"] = (
+    PBT + ": validity predicate over the returned rex.base.Graph recomputed from its own float32 values; array equality on old parts for augmentation",
+    "Generated node sets (static, mixture, trainable distributions; skip/window; tie-pressure and heavy-jitter classes) x horizons x episode counts x seeds, and "
+    "sub-graphs augmented with the full node set; acyclicity, phase/period spacing, delays, horizon masking, FIFO arrival and first-step assignment are recomputed independently.",
+    "only configurations generate_graphs documents as supported; networkx used for the cycle test; 2 ulp float32 tolerance where sums are recomputed", "DESIGN.md §4 C12",
+)
 NOT_APPLICABLE = {}
